@@ -343,7 +343,7 @@ def run(ck):
         ck.add_violation('translator:sol-guards', 'the integer decisions / format strings of the SOL writer and reader could not be re-translated from the source: %s' % tr_err,
                          {'translator': 'translators/gen_solguards.py', 'output': tr_err}, found_input=False)
     proof_ok, failing = ck.proof_stage('MpVerif.C05.Props', 'MpVerif/C05/Props.lean', 'C05_',
-                                        ['MpVerif/C05/*.lean', 'MpVerif/C14/Model*.lean', 'MpVerif/C14/Lemmas*.lean', 'MpVerif/Gen/SolGuards.lean'], expect_min=31)
+                                        ['MpVerif/C05/*.lean', 'MpVerif/C14/Model*.lean', 'MpVerif/C14/Lemmas*.lean', 'MpVerif/Gen/SolGuards.lean'], expect_min=34)
     ck.log('proof stage: ok=%s failing=%s' % (proof_ok, failing[:12]))
     if ck.tier == 'thorough' and proof_ok:
         bad = ck.leanchecker(['MpVerif.C05.Props'])
